@@ -17,6 +17,18 @@ PAIRS = [("remove_modifier", "without_modifier"), ("remove_obsolete", "without_o
 
 def run(ck, prog, ctx):
     ck.rule("SIBLING", "two implementations of one operation delegate or have equal kernels (DESIGN 3.15)")
+    # the annotations of a SET are the union of its members' annotations: the accumulating operator of gene_ids / omim_disease_ids / orpha_disease_ids is `|`
+    for nm13 in ("gene_ids", "omim_disease_ids", "orpha_disease_ids"):
+        ab13 = prog.body(S + nm13)
+        if ab13 is None:
+            continue
+        ops13 = sorted({("or" if "BitOr" in (t_.callee.trait or "") else "and") for fb_ in prog.family(ab13) for _, t_ in fb_.calls() if (t_.callee.trait or "") in ("std::ops::BitOr", "std::ops::BitAnd")})
+        if ops13:
+            ck.ob("SELECT", "%s/accumulates-with-union" % nm13, ops13 == ["or"], "HpoSet::%s accumulates its members' annotations with %s" % (nm13, "`|` (union)" if ops13 == ["or"] else "`&`: the result is the INTERSECTION (empty for most sets), not the union"), where=ab13.where())
+    # no truncating adaptor (skip / take / step_by ..) in the iterator pipelines of these functions: every element takes part
+    from engines import check_complete_iteration as _cci_all
+    _cci_all(ck, "SELECT", prog, [b_ for b_ in sorted(prog.production(), key=lambda z: z.id) if re.search(r"^src/set\.rs$", b_.file or "") and b_.kind in ("Fn", "AssocFn") and not b_.test
+                               and any(t_.callee.trait == "std::iter::Iterator" for fb_ in prog.family(b_) for _, t_ in fb_.calls())], "the members it iterates")
     ck.rule("ERR", "every call of a crate function returning Result<_, HpoError> in src/set.rs propagates the error, panics on it, or is a listed documented exception; none replaces it by a default")
     from engines import check_error_discipline
     check_error_discipline(ck, "ERR", prog, r"^src/set\.rs$", allowed=[], floor=0)
